@@ -40,3 +40,28 @@ func init() {
 		return v.out
 	}
 }
+
+// declared and initialiser types of every variable declaration (checker's view)
+type varTypeVisitor struct{ out []string }
+
+func (*varTypeVisitor) Visitor() {}
+func (v *varTypeVisitor) VisitVarDecl(d *ast.VarDecl) ast.VisitResult {
+	it := "<nil>"
+	if d.InitType != nil {
+		it = d.InitType.String()
+	}
+	dt := "<nil>"
+	if d.Type != nil {
+		dt = d.Type.String()
+	}
+	v.out = append(v.out, fmt.Sprintf("%s|%s|%s", d.Name(), dt, it))
+	return ast.VisitRecurse
+}
+
+func init() {
+	dumpers["vartypes"] = func(m *ast.Module, dir string) []string {
+		v := &varTypeVisitor{}
+		ast.VisitModule(m, v)
+		return v.out
+	}
+}
